@@ -243,8 +243,8 @@ def run_case(c):
                 rc = g.v2.root_cert
                 pem = certs.cert_pem(rc)
                 if alter and alter["target"] == "root":
-                    from vlib.genuine import flip
-                    der = flip(certs.cert_der(rc), alter["pos"], alter["bit"])
+                    der = certs.flip_in_signed_or_signature(certs.cert_der(rc), alter["pos"],
+                                                            alter["bit"])
                     pem = (b"-----BEGIN CERTIFICATE-----\n" + certs.der_to_b64(der).encode() +
                            b"\n-----END CERTIFICATE-----\n")
                 with open(root_arg, "wb") as f:
